@@ -578,6 +578,27 @@ func genLifecycle(r *Rng, idx int, tier string, step func(op string) string) {
 	if tier == "thorough" {
 		steps = r.Range(6, 24)
 	}
+	// Storage faults and schedules of the piece writer at one point of some histories:
+	//  1 a verification is requested while `Open` fails (every file, or from one file on)
+	//  2 a file vanished while stopped and the `Open` of a later file fails at the next start (the allocator has
+	//    re-created the missing one by then); the process dies; the storage recovers; restart
+	//  3 the piece writer has stored a piece but has not reported yet when the torrent is stopped / re-verified
+	//    and started again: its result reaches the next run
+	special, specialAt := 0, -1
+	if r.Chance(30) {
+		special, specialAt = r.Range(1, 3), r.Intn(steps)
+	}
+	ndata := 0
+	for i := range l.lens {
+		if !l.pads[i] {
+			ndata++
+		}
+	}
+	waitStop := func() {
+		if ntrk > 0 {
+			do("waitstop")
+		}
+	}
 	for s := 0; s < steps; s++ {
 		if strings.HasPrefix(last, "hang") || strings.HasPrefix(last, "dead") || strings.HasPrefix(last, "panic") {
 			return
@@ -585,6 +606,72 @@ func genLifecycle(r *Rng, idx int, tier string, step func(op string) string) {
 		st := status(last)
 		roll := r.Intn(100)
 		switch {
+		case s == specialAt && special == 1:
+			at := ""
+			if r.Chance(50) {
+				at = fmt.Sprintf(" at=%d", r.Intn(ndata+1))
+			}
+			do("gate kind=failopen on=1" + at)
+			do("verify")
+			waitStop()
+			do("obs")
+			if r.Chance(50) {
+				do("start")
+				waitStop()
+			}
+			do("gate kind=failopen on=0")
+		case s == specialAt && special == 2 && l.dataBytes() > 0:
+			if st != "Stopped" {
+				do("stop")
+				waitStop()
+			}
+			if status(last) == "Stopped" {
+				do(fmt.Sprintf("mutate file=%s how=delete off=0", r.Pick2("all", fmt.Sprint(r.Intn(len(l.lens))), fmt.Sprint(r.Intn(len(l.lens))))))
+				do(fmt.Sprintf("gate kind=failopen on=1 at=%d", r.Intn(ndata+1)))
+				do(r.Pick2("start", "start", "verify"))
+				waitStop()
+				do("gate kind=failopen on=0")
+				if ntrk == 0 {
+					do("crashcheck") // (the second session of the crash check would talk to the tracker stubs as well)
+				}
+				do("start")
+				do("diskcheck")
+			}
+		case s == specialAt && special == 3 && !gates["write"]:
+			var live *scriptPeer
+			for _, p := range peers {
+				if !p.closed {
+					live = p
+				}
+			}
+			if st == "Downloading" && live == nil && nextK <= 8 {
+				live = attach()
+			}
+			if status(last) == "Downloading" && live != nil {
+				do("gate kind=writedone on=1")
+				gates["writedone"] = true
+				honestServe(peers, live, r.Range(1, 3), step)
+				do("obs")
+				switch r.Intn(3) {
+				case 0:
+					if l.dataBytes() > 0 {
+						do("gate kind=" + l.readGate() + " on=1") // the verification that follows is held too
+						gates[l.readGate()] = true
+					}
+					do("verify hold=1")
+					waitStop()
+				case 1:
+					do("stop hold=1")
+					waitStop()
+					do("start")
+				default:
+					do("stop hold=1")
+					waitStop()
+				}
+				do("gate kind=writedone on=0")
+				gates["writedone"] = false
+				do("obs")
+			}
 		case dialHold && !dialed && st == "Downloading" && r.Chance(40):
 			dialed = true
 			// (with a connected peer: closing it at the stop makes room for another dial)
@@ -716,7 +803,7 @@ func genLifecycle(r *Rng, idx int, tier string, step func(op string) string) {
 		}
 	}
 	// Final phase: everything released, (re)start, an honest seed answers every request.
-	for _, kind := range []string{"open", "read", "write"} {
+	for _, kind := range []string{"open", "read", "write", "writedone"} {
 		if gates[kind] {
 			do(fmt.Sprintf("gate kind=%s on=0", kind))
 		}
